@@ -23,12 +23,15 @@ from .. import jweworld as JW
 ID = "C18"
 LEVEL = "exploration"
 CELLS = [(a, e, f) for a in JW.ALL_ALGS for e in JW.ALL_ENCS for f in JW.FORMS if JW.enc_ok(a, e)]
-RUNS = {"quick": len(CELLS) + 60, "thorough": (len(CELLS) + 60) * 6}
+N_KEYGEN, N_MULTI = 60, 48
+SLOTS = len(CELLS) + N_KEYGEN + N_MULTI
+RUNS = {"quick": SLOTS, "thorough": SLOTS * 6}
 BUDGET = {"quick": 75, "thorough": 1800}
 RULE = ("one run = one history: N encryptions (quick 136-200, thorough up to 10,000 for cheap families, 1,000 for RSA / PBES2) of "
         "one (alg, enc, serialisation) cell with the same key and equal header values, entropy configuration prng-seam | real | "
         "real across 3-4 fresh interpreter processes | real across 3-4 children forked after the parent encrypted once (index driven); or a history of key generations (oct 8..512 bit, RSA, EC x4, "
-        "OKP x4); a case = one produced token / key whose IV, CEK (recovered by the reference peer with the recipient key), epk, "
+        "OKP x4); or a history of general-JSON tokens with 2-4 recipients each (ECDH-ES+KW / ECDH-1PU+KW on one or two curves with the same or different "
+        "recipient keys, AES-GCM-KW, PBES2, AES-KW, RSA-OAEP mixed) where the per-recipient values are pooled over all recipients of all tokens; a case = one produced token / key whose IV, CEK (recovered by the reference peer with the recipient key), epk, "
         "GCM-KW iv, p2s, p2c were checked against the whole history; distinct = distinct (run, position)")
 ASSUMPTIONS = [
     "pairwise distinctness and exact sizes are judged on every history; the both-values-per-bit clause only on histories of >= 128 samples (false-alarm probability 2 * 2^-128 per bit position)",
@@ -58,10 +61,73 @@ def make_spec(rng: Rng, alg, enc, form) -> dict:
             "zip": rng.chance(0.2), "supply_p2c": alg in rjwe.PBES2 and rng.chance(0.5)}
 
 
+MULTI_ALGS = ["ECDH-ES+A128KW", "ECDH-ES+A192KW", "ECDH-ES+A256KW", "ECDH-1PU+A128KW", "ECDH-1PU+A256KW", "A128KW", "A256KW",
+              "A128GCMKW", "A192GCMKW", "A256GCMKW", "PBES2-HS256+A128KW", "PBES2-HS512+A256KW", "RSA-OAEP"]
+
+
+def make_multi_spec(rng: Rng) -> dict:
+    """2-4 recipients of one general-JSON token; most tokens have several key-agreement recipients on one curve"""
+    n_r = rng.pick([2, 2, 3, 4])
+    shape = rng.pick(["ecdh-same-curve", "ecdh-same-curve", "ecdh-same-key", "mixed", "same-alg"])
+    curves = [rng.pick(JW.CURVES)]
+    if rng.chance(0.3):
+        curves.append(rng.pick(JW.CURVES))
+    if shape.startswith("ecdh"):
+        algs = [rng.pick(MULTI_ALGS[:3]) for _ in range(n_r)]
+    elif shape == "same-alg":
+        algs = [rng.pick(MULTI_ALGS)] * n_r
+    else:
+        algs = [rng.pick(MULTI_ALGS) for _ in range(n_r)]
+    one_pu = any(a.startswith("ECDH-1PU") for a in algs)
+    if one_pu:
+        curves = curves[:1]       # one sender key per call
+    enc = rng.pick([e for e in JW.ALL_ENCS if not one_pu or rjwe.ENCS[e][0] == "cbc"])
+    rcpts, sender, shared = [], None, None
+    for i, a in enumerate(algs):
+        crv = curves[i % len(curves)]
+        key, snd = JW.keys_for(rng.sub("key%d" % i), a, enc, crv)
+        if a.startswith("ECDH") and shape == "ecdh-same-key":
+            shared = shared or key
+            key = shared
+        if snd is not None:
+            sender = sender or snd
+        rcpts.append({"alg": a, "key": rk.to_jwk(key, True)})
+    return {"multi": rcpts, "enc": enc, "alg": "+".join(sorted(set(algs))), "form": "general", "zip": rng.chance(0.2),
+            "sender": rk.to_jwk(sender, True) if sender else None, "shape": shape, "supply_p2c": True, "key": None}
+
+
+def produce_multi(spec: dict, n: int) -> list:
+    from joserfc import jwe
+    JW.ensure_drafts_registered()
+    reg = JW.registry()
+    keys = []
+    for r in spec["multi"]:
+        k = rk.from_jwk(r["key"], strict=False)
+        keys.append(K.to_jose_fast(k if k.kty == "oct" else k.public(), k.kty == "oct"))
+    sender = K.to_jose_fast(rk.from_jwk(spec["sender"], strict=False), True) if spec["sender"] else None
+    out = []
+    with warnings.catch_warnings():
+        warnings.simplefilter("ignore")
+        for i in range(n):
+            prot = {"enc": spec["enc"]}
+            if spec["zip"]:
+                prot["zip"] = "DEF"
+            o = jwe.GeneralJSONEncryption(prot, b"same plaintext")
+            for r, k in zip(spec["multi"], keys):
+                h = {"alg": r["alg"]}
+                if r["alg"] in rjwe.PBES2:
+                    h["p2c"] = 1
+                o.add_recipient(h, k)
+            out.append(jwe.encrypt_json(o, None, registry=reg, sender_key=sender))
+    return out
+
+
 def produce_history(spec: dict, n: int) -> list:
     """N encryptions, same key object, equal header values, fresh header object per call"""
     from joserfc import jwe
     JW.ensure_drafts_registered()
+    if spec.get("multi"):
+        return produce_multi(spec, n)
     key = rk.from_jwk(spec["key"], strict=False)
     jkey = K.to_jose_fast(key if key.kty == "oct" else key.public(), key.kty == "oct")
     sender = K.to_jose_fast(rk.from_jwk(spec["sender"], strict=False), True) if spec["sender"] else None
@@ -84,6 +150,83 @@ def produce_history(spec: dict, n: int) -> list:
                 o.add_recipient({k: v for k, v in hdr.items() if k not in ("enc", "zip")}, jkey)
                 out.append(jwe.encrypt_json(o, None, registry=reg, sender_key=sender))
     return out
+
+
+def extract_multi(tok, keys: list, sender):
+    """per-recipient values of a multi-recipient token: [(epk | None, kwiv | None, p2s | None)], plus the verdict"""
+    v = rjwe.decrypt(tok, lambda m, i: keys[i] if i < len(keys) else None, (lambda m, i: sender) if sender else None)
+    per = []
+    for r in v.recs:
+        m = r.merged or {}
+        per.append({"alg": m.get("alg"),
+                    "epk": m["epk"] if isinstance(m.get("epk"), dict) else None,
+                    "kwiv": b64.dec(m["iv"]) if str(m.get("alg", "")).endswith("GCMKW") and isinstance(m.get("iv"), str) else None,
+                    "p2s": b64.dec(m["p2s"]) if isinstance(m.get("p2s"), str) else None,
+                    "ek": r.ek})
+    return v, per
+
+
+def judge_multi(spec, tokens, res, viol):
+    keys = [rk.from_jwk(r["key"], strict=False) for r in spec["multi"]]
+    sender = rk.from_jwk(spec["sender"], strict=False).public() if spec["sender"] else None
+    kind, ceklen, ivlen, _ = rjwe.ENCS[spec["enc"]]
+    cols = {"iv": [], "cek": [], "epk": [], "kwiv": [], "p2s": []}
+    where = {name: [] for name in cols}
+    for pos, tok in enumerate(tokens):
+        v, per = extract_multi(tok, keys, sender)
+        if not v.ok:
+            viol("history:token-not-decryptable", "token %d of the multi-recipient history does not decrypt at the reference peer: %s" % (pos, v.reason), pos)
+            continue
+        if len(per) != len(keys):
+            viol("history:recipient-count", "token %d has %d recipients, %d were added" % (pos, len(per), len(keys)), pos)
+        if len(v.iv) != ivlen:
+            viol("size:iv", "IV of token %d has %d octets, %s requires %d" % (pos, len(v.iv), spec["enc"], ivlen), pos)
+        if len(v.cek) != ceklen:
+            viol("size:cek", "CEK of token %d has %d octets, %s requires %d" % (pos, len(v.cek), spec["enc"], ceklen), pos)
+        cols["iv"].append(v.iv)
+        where["iv"].append((pos, 0))
+        cols["cek"].append(v.cek)
+        where["cek"].append((pos, 0))
+        for ri, p in enumerate(per):
+            if p["epk"] is not None:
+                try:
+                    ek = rk.from_jwk({k: x for k, x in p["epk"].items() if k != "d"}, strict=False)
+                    if ri < len(keys) and (ek.kty != keys[ri].kty or ek.crv != keys[ri].crv):
+                        viol("epk:other-curve", "ephemeral key of token %d recipient %d is on %s, recipient on %s" % (pos, ri, ek.crv, keys[ri].crv), pos)
+                except rk.KeyError_ as ex:
+                    viol("epk:invalid-point", "ephemeral key of token %d recipient %d is not a valid public key: %s" % (pos, ri, ex), pos)
+                cols["epk"].append(json.dumps(p["epk"], sort_keys=True).encode())
+                where["epk"].append((pos, ri))
+            elif str(p["alg"]).startswith("ECDH"):
+                viol("epk:missing", "key-agreement recipient %d of token %d carries no epk" % (ri, pos), pos)
+            if p["kwiv"] is not None:
+                if len(p["kwiv"]) != 12:
+                    viol("size:gcmkw-iv", "GCM key-wrap IV of token %d recipient %d has %d octets" % (pos, ri, len(p["kwiv"])), pos)
+                cols["kwiv"].append(p["kwiv"])
+                where["kwiv"].append((pos, ri))
+            if p["p2s"] is not None:
+                if len(p["p2s"]) < 8:
+                    viol("size:p2s", "PBES2 salt input of token %d recipient %d has %d octets" % (pos, ri, len(p["p2s"])), pos)
+                cols["p2s"].append(p["p2s"])
+                where["p2s"].append((pos, ri))
+            res.case("multi", spec["alg"], spec["enc"], pos, ri, v.iv)
+    for name, col in cols.items():
+        seen = {}
+        for i, x in enumerate(col):
+            if x in seen:
+                a, b = where[name][seen[x]], where[name][i]
+                viol("reuse:%s:%s" % (name, "within-one-token" if a[0] == b[0] else "across-tokens"),
+                     "%s of token %d recipient %d equals that of token %d recipient %d (%s, %s, %d recipients)" % (
+                         name, b[0], b[1], a[0], a[1], spec["alg"], spec["shape"], len(keys)), i)
+                break
+            seen[x] = i
+        if name in ("iv", "cek", "kwiv", "p2s") and len(col) >= 128:
+            stuck = bit_coverage(col)
+            if stuck:
+                viol("fixed-bits:%s" % name, "%d bit position(s) of %s never change over %d values (first: bit %d)" % (len(stuck), name, len(col), stuck[0]), 0)
+    if cols["epk"]:
+        res.probe("multi:epk-values-pooled")
+    res.stats["multi_recipient_values"] += sum(len(c) for c in cols.values())
 
 
 def extract(tok, key: rk.RKey, sender):
@@ -125,6 +268,8 @@ def bit_coverage(values: list) -> list:
 
 
 def judge_history(spec, tokens, res, viol, ent=None):
+    if spec.get("multi"):
+        return judge_multi(spec, tokens, res, viol)
     key = rk.from_jwk(spec["key"], strict=False)
     sender = rk.from_jwk(spec["sender"], strict=False).public() if spec["sender"] else None
     alg, enc = spec["alg"], spec["enc"]
@@ -246,21 +391,29 @@ def run(rng: Rng, tier: str, index: int) -> RunResult:
     JW.ensure_drafts_registered()
     res = RunResult()
     tr = Trace()
-    slot = index % (len(CELLS) + 60)
-    if slot >= len(CELLS):
+    slot = index % SLOTS
+    multi = slot >= len(CELLS) + N_KEYGEN
+    if slot >= len(CELLS) and not multi:
         def viol(sig, what, pos):
             res.violation(ID, sig, what, {"kind": "keygen", "seed": rng.label})
         keygen_history(rng.sub("keygen"), res, viol, tier)
         res.digest = tr.digest()
         return res
-    alg, enc, form = CELLS[slot]
-    spec = make_spec(rng.sub("spec"), alg, enc, form)
+    if multi:
+        spec = make_multi_spec(rng.sub("multi-spec"))
+        alg, enc, form = spec["alg"], spec["enc"], "general"
+        res.fired("multi-recipient-history:" + spec["shape"])
+    else:
+        alg, enc, form = CELLS[slot]
+        spec = make_spec(rng.sub("spec"), alg, enc, form)
     mode = ["prng", "real", "multiprocess", "fork"][(index // 7) % 4] if tier == "quick" else ["prng", "real", "fork", "real", "multiprocess"][(index // 7) % 5]
     cheap = not (alg.startswith("RSA") or (alg in rjwe.PBES2 and not spec["supply_p2c"]) or alg.startswith("ECDH"))
     if tier == "quick":
         n = rng.randrange(136, 200)
     else:
         n = rng.pick([1000, 4000, 10000]) if cheap else rng.pick([300, 1000])
+    if multi:
+        n = rng.randrange(48, 72) if tier == "quick" else rng.pick([200, 600])
     repro = {"kind": "history", "spec": spec, "n": n, "mode": mode, "seed": rng.label}
 
     def viol(sig, what, pos):
